@@ -261,6 +261,19 @@ fn roots(tier: Tier, shard: usize, n: usize) -> Report {
 	r
 }
 
+/// a fresh VecBackend with `nl` leaves of which leaf `rm` is removed
+fn ba_clone_with_removed(f: &Forest, nl: u32, rm: u32) -> VecBackend<Elem> {
+	let mut ba = VecBackend::<Elem>::new();
+	{
+		let mut p = PMMR::new(&mut ba);
+		for i in 0..nl {
+			p.push(&Elem(i)).unwrap();
+		}
+		p.prune(f.leaf_pos[rm as usize]).unwrap();
+	}
+	ba
+}
+
 fn proofs(tier: Tier, shard: usize, n: usize) -> Report {
 	let mut r = Report::new();
 	let maxl: u32 = tier.pick(96, 320);
@@ -346,6 +359,31 @@ fn proofs(tier: Tier, shard: usize, n: usize) -> Report {
 				must_fail(&mut r, "proofs:path-lengthened", format!("path with extra zero hash at {} still verifies (leaf {} of {})", k, li, nl), &pr, Elem(li), pos);
 			}
 		}
+		// proofs of present leaves are unaffected by the removal of any other single leaf
+		// (VecBackend::remove = the leaf is spent: get_hash/get_data no longer report it)
+		if nl <= 48 {
+			for rm in 0..nl {
+				let mut bb = ba_clone_with_removed(&f, nl, rm);
+				let pp = PMMR::at(&mut bb, size);
+				let case = json!({"leaves": nl, "removed_leaf": rm});
+				chk!(r, pp.root().ok() == Some(root), "proofs:root-after-removal", format!("root of {} leaves changes when leaf {} is removed", nl, rm), case.clone());
+				for li in 0..nl {
+					if li == rm {
+						continue;
+					}
+					let pos = f.leaf_pos[li as usize];
+					r.evaluations += 1;
+					match pp.merkle_proof(pos) {
+						Ok(pr) => {
+							if pr.verify(root, &Elem(li), pos).is_err() {
+								r.violation("proofs:after-removal-of-other-leaf", format!("with leaf {} of {} removed, the proof produced for present leaf {} does not verify against the root", rm, nl, li), json!({"leaves": nl, "removed_leaf": rm, "leaf": li}));
+							}
+						}
+						Err(e) => r.violation("proofs:after-removal-create", format!("merkle_proof failed after removal of another leaf: {}", e), case.clone()),
+					}
+				}
+			}
+		}
 		// proofs for non-leaf positions must be refused
 		for pos in 0..size {
 			if f.nodes[pos as usize].height > 0 {
@@ -365,7 +403,7 @@ impl Engine for C07 {
 	fn meta(&self, _tier: Tier) -> Meta {
 		Meta {
 			level: "exploration",
-			rule: "exhaustive enumeration: every node position and every MMR size up to the node bound (pure position arithmetic vs an explicitly built forest), every (size,pos) for family_branch, every leaf count up to the root bound (push/root/peaks/validate/read-only views), every leaf of every MMR up to the proof bound x every single corruption of element/position/path; a case is one (function family, argument tuple); all generated cases are distinct by construction",
+			rule: "exhaustive enumeration: every node position and every MMR size up to the node bound (pure position arithmetic vs an explicitly built forest), every (size,pos) for family_branch, every leaf count up to the root bound (push/root/peaks/validate/read-only views), every leaf of every MMR up to the proof bound x every single corruption of element/position/path, and with every other single leaf removed (<= 48 leaves); a case is one (function family, argument tuple); all generated cases are distinct by construction",
 			assumptions: vec![
 				"blake2b-256 (blake2-rfc crate) is the hash; the reference hashes (index BE || content) itself".into(),
 				"positions >= 2^63 are outside the domain (no consensus-valid MMR reaches them)".into(),
